@@ -727,6 +727,7 @@ func locktable(exemptPath, outV, outJSON string) {
 // sync skeleton: the ordered synchronisation events of the functions the concurrency models are about
 
 var syncFuncs = []string{"Store.Flush", "Store.flushTick", "Store.commit", "Store.Close", "Store.run", "Store.Put", "Store.Remove", "Store.Get",
+	"Store.Has", "Store.GetSize", "primaryGC.reapRecords", "primaryGC.gc",
 	"primaryGC.run", "primaryGC.close", "MultihashPrimary.Close", "Index.garbageCollector", "Index.Close", "Index.Put", "Index.Update", "Index.update",
 	"Index.Remove", "Index.remove", "Index.Get", "Index.Flush", "MultihashPrimary.Flush", "MultihashPrimary.Put", "FreeList.ToGC", "FreeList.FlushN",
 	"FileCache.Open", "FileCache.Close", "FileCache.Remove", "FileCache.Clear", "FileCache.SetCacheSize", "FileCache.Len", "FileCache.Cap"}
@@ -978,6 +979,12 @@ func (k *sk) stmt(s ast.Stmt) {
 		}
 	case *ast.LabeledStmt:
 		k.stmt(x.Stmt)
+	case *ast.BranchStmt:
+		if x.Tok == token.CONTINUE {
+			k.mark("SContinue")
+		} else if x.Tok == token.BREAK {
+			k.mark("SBreak")
+		}
 	}
 }
 
